@@ -211,7 +211,7 @@ def run(ck):
                "uninstalled); plus a file-system battery whose folder / file names are handler arguments (same name after delete and re-create; deleted and "
                "never-existing folders and files); distinct by (scenario, round, request)")
     coq_props(ck)
-    gen_tie.check(ck, ["reqtree"])
+    gen_tie.check(ck, ["reqtree", "request"])
     for i, (name, cfg) in enumerate(scenarios(ck)):
         explore(ck, name, cfg, rounds=ck.n(5, 12), per_round=ck.n(70, 150), label=str(i))
         fs_battery(ck, name, cfg)
